@@ -55,6 +55,13 @@ class LeafExt(Config):
     added_meta: Meta[str] = "x"
     added_list: Param[List[int]] = [1, 2]
     added_path: Meta[Path] = field(default_factory=PathGenerator("new.txt"))
+    # falsy defaults
+    added_flag: Param[bool] = False
+    added_zero: Param[int] = 0
+    added_empty: Param[str] = ""
+    added_nolist: Param[List[int]] = []
+    added_nodict: Param[Dict[str, int]] = {}
+    added_fzero: Param[float] = 0.0
 
 
 class NodeExt(Config):
